@@ -1279,6 +1279,10 @@ func runC02(c *Ctx) error {
 	if err := runC02Imports(c); err != nil {
 		return err
 	}
+	// captures that are part of the declaration the pattern is rooted at (c02_decl.go)
+	if err := runC02Decl(c); err != nil {
+		return err
+	}
 	return nil
 }
 
